@@ -149,7 +149,7 @@ def icpdag_rules(rep, prog):
         nxP = second["next"][Pn[0]]
         okl = nxP[0] == "call" and nxP[1] == U + "maximally_orient" and dict(nxP[3]).get("P", ("x",))[0] == "store"
         test = npred(second["test"], True)
-        okl = okl and test[0] == "nonempty"
+        okl = okl and (test[0] == "nonempty" or (test[0] == "atom" and test[2] is True and isinstance(test[1], tuple) and test[1][:1] == ("mu",)))      # `while len(x) > 0` / `while x`
     rep.check("DEPENDS.empty-I", okl and first["iter"] == PI, fwhere(f, second["node"]),
               "starts from dag_to_cpdag(G) and touches it once per fixed edge only: with I empty the work list is empty and the CPDAG is returned unchanged",
               "the I-CPDAG is not `dag_to_cpdag(G)` refined once per edge at a target")
